@@ -177,4 +177,44 @@ theorem level_mem : ∀ (p : List Nat) (t : Tree) (off : Nat) (s : Tree) (o : Na
         have : off + o = off + kidsOffset ks i + o' := by omega
         rw [this]; exact ih
 
+mutual
+  /-- The uncovered nodes of a level are a sublist of the level. -/
+  theorem levelListU_sublist (sh : Tree → Bool) : ∀ (t : Tree) (off d : Nat),
+      (levelListU sh t off d).Sublist (levelList t off d)
+    | t, off, 0 => by
+      unfold levelListU levelList
+      split
+      · exact List.nil_sublist _
+      · exact List.Sublist.refl _
+    | .mk nd ks, off, d + 1 => by
+      unfold levelListU levelList
+      split
+      · exact List.nil_sublist _
+      · exact levelKidsU_sublist sh ks off d
+  theorem levelKidsU_sublist (sh : Tree → Bool) : ∀ (ks : List Tree) (off d : Nat),
+      (levelKidsU sh ks off d).Sublist (levelKids ks off d)
+    | [], _, _ => by simp [levelKidsU, levelKids]
+    | k :: rest, off, d => by
+      unfold levelKidsU levelKids
+      exact List.Sublist.append (levelListU_sublist sh k off d) (levelKidsU_sublist sh rest _ d)
+end
+
+/-- Split a level's uncovered nodes into those that reach the window and the stray ones. -/
+theorem uncovered_level_split (sh : Tree → Bool) (t : Tree) (d S E : Nat) :
+    (levelListU sh t 0 d).length ≤ (reachL (levelList t 0 d) S E).length +
+      ((levelListU sh t 0 d).filter (fun x => !reaches x.2 x.1 S E)).length := by
+  have hsub := levelListU_sublist sh t 0 d
+  have h1 : ((levelListU sh t 0 d).filter (fun x => reaches x.2 x.1 S E)).length ≤ (reachL (levelList t 0 d) S E).length :=
+    (List.Sublist.filter _ hsub).length_le
+  have h2 : (levelListU sh t 0 d).length =
+      ((levelListU sh t 0 d).filter (fun x => reaches x.2 x.1 S E)).length +
+      ((levelListU sh t 0 d).filter (fun x => !reaches x.2 x.1 S E)).length := by
+    generalize levelListU sh t 0 d = xs
+    induction xs with
+    | nil => rfl
+    | cons x rest ih =>
+      simp only [List.filter_cons, List.length_cons]
+      by_cases hr : reaches x.2 x.1 S E = true <;> simp [hr] <;> omega
+  omega
+
 end TsVerif.C12
